@@ -40,6 +40,9 @@ func (e *Engine) selectFuncs(re *regexp.Regexp) []*ssa.Function {
 		if f.Synthetic != "" && f.Origin() == nil {
 			continue
 		}
+		if f.TypeParams().Len() > 0 && len(f.TypeArgs()) == 0 {
+			continue // type-parametric origin body: verified per instance (//@ instantiate)
+		}
 		k := e.fnKey(f)
 		if re.MatchString(k) {
 			out = append(out, f)
